@@ -3,12 +3,13 @@ From JV Require Import Sem Gen Spec SpecX.
 From JV.Proofs Require Import SpecFacts Cal Core Year SpecSets.
 Import ListNotations.
 Require JV.Proofs.Enums.
+Require JV.Proofs.Glue_C08_core.
 Open Scope Z_scope.
 
 (* CountIs P n (Spec.v): the set {j | P j} has exactly n elements (it is empty and n = 0, or it is an interval of n days) *)
 Theorem C08_length_is_count : forall c y, ValidCal c -> in_i32 y ->
   Calendar_year_length (cal_of c) y = Ret (year_count c y) /\ CountIs (InYear c y) (year_count c y).
-Proof. intros c y V Hy. split; [apply year_length_ok; assumption|apply year_count_is; exact V]. Qed.
+Proof. exact JV.Proofs.Glue_C08_core.C08_length_is_count_lemma. Qed.
 Print Assumptions C08_length_is_count.
 
 (* ... and equals the sum of the lengths of its months (an absent month counts 0) *)
@@ -16,10 +17,7 @@ Theorem C08_length_is_month_sum : forall c y, ValidCal c -> in_i32 y ->
   fold_right Z.add 0 (map (month_count c y) [1;2;3;4;5;6;7;8;9;10;11;12]) = year_count c y /\
   forall m, (month_count c y (Month_discr m) = 0 /\ Calendar_month_shape (cal_of c) y m = Ret None) \/
             (exists s, Calendar_month_shape (cal_of c) y m = Ret (Some s) /\ MonthShape_len s = Ret (month_count c y (Month_discr m))).
-Proof.
-  intros c y V Hy. split; [exact (month_sum_year c y)|]. intros m.
-  destruct (month_shape_described c y m V Hy) as [[Z0 E]|[_ (s & E & D)]]; [left; auto|right; exists s; split; [exact E|apply D]].
-Qed.
+Proof. exact JV.Proofs.Glue_C08_core.C08_length_is_month_sum_lemma. Qed.
 Print Assumptions C08_length_is_month_sum.
 
 (* the kind: year_kind_of (Spec.v) is the property's text —
@@ -35,7 +33,7 @@ Theorem C08_skipped_iff_empty : forall c y, year_kind_of c y = KSkipped <-> year
 Proof. exact year_kind_skipped_iff. Qed.
 Print Assumptions C08_skipped_iff_empty.
 Theorem C08_feb29_meaning : forall c y, ValidCal c -> (incalb c y 2 29 = true <-> InCal c y 2 29).
-Proof. intros c y V. exact (incal_iff c y 2 29 V). Qed.
+Proof. exact JV.Proofs.Glue_C08_core.C08_feb29_meaning_lemma. Qed.
 Print Assumptions C08_feb29_meaning.
 
 (* non-vacuity: the two calendars on which the unrepaired code was wrong (defects D1, D2), and a skipped year *)
@@ -52,3 +50,8 @@ Theorem C08_kind_predicates : forall k,
   YearKind_is_skipped k = Ret (match k with YearKind_Skipped => true | _ => false end).
 Proof. exact JV.Proofs.Enums.year_kind_predicates. Qed.
 Print Assumptions C08_kind_predicates.
+Theorem C08_kind_flags : forall k,
+  (a <- YearKind_is_leap k;; b <- YearKind_is_common k;; c <- YearKind_is_reform k;; d <- YearKind_is_skipped k;; Ret (a, b, c, d))
+  = Ret (ykind_flags k).
+Proof. exact JV.Proofs.Enums.year_kind_flags_ok. Qed.
+Print Assumptions C08_kind_flags.
